@@ -6,7 +6,7 @@ use bio::seq_analysis::orf::Finder;
 use std::collections::BTreeSet;
 
 pub struct C20;
-const N_DIRECTED: u64 = 13;
+const N_DIRECTED: u64 = 14;
 
 fn all_codons(letters: &[u8]) -> Vec<[u8; 3]> {
     let mut v = vec![];
@@ -356,6 +356,24 @@ impl Monitor for C20 {
                     ctx.count("orf_sequences_longer_than_65536", 1);
                     self.orf_case(ctx, rng, &seq, &std_starts, &std_stops, 100);
                     self.orf_case(ctx, rng, &seq, &std_starts, &std_stops, 209_000);
+                }
+                13 => {
+                    // more than 2^24 counted G/C symbols: the count must not saturate in a narrow accumulator.
+                    // The lengths are chosen so that every count is exactly representable and the fraction is exactly 1/2.
+                    if ctx.tiny() {
+                        return;
+                    }
+                    use std::iter::repeat;
+                    let g1 = gc_content(repeat(b'G').take(20_000_000).chain(repeat(b'T').take(20_000_000)));
+                    let g3 = gc3_content(repeat(b'c').take(60_000_000).chain(repeat(b'a').take(60_000_000)));
+                    ctx.eval(2);
+                    ctx.count("gc_sequences_with_more_than_2^24_gc_symbols", 2);
+                    if (g1 - 0.5).abs() > 1e-6 || g1.is_nan() {
+                        ctx.violation("gc_content:wrong", Obj::new().s("seq", "20e6 x G then 20e6 x T").f("got", g1 as f64).f("expected", 0.5).done());
+                    }
+                    if (g3 - 0.5).abs() > 1e-6 || g3.is_nan() {
+                        ctx.violation("gc3_content:wrong", Obj::new().s("seq", "60e6 x c then 60e6 x a").f("got", g3 as f64).f("expected", 0.5).done());
+                    }
                 }
                 _ => self.orf_case(ctx, rng, b"", &std_starts, &std_stops, 0),
             }
